@@ -182,3 +182,11 @@ macro_rules! literal_matcher_from_pattern {
         }
     };
 }
+
+/// Re-exports for out-of-tree verification harnesses, see feature `verif_hooks`.
+#[cfg(feature = "verif_hooks")]
+#[doc(hidden)]
+pub mod verif_hooks {
+    pub use super::eval_binary;
+    pub use super::number_tracker::NumberTracker;
+}
